@@ -440,6 +440,38 @@ func runC10(w *eng.W) {
 			c10Fields.Do(w, SrcCase{Src: append(Bytes(nil), src...)})
 		})
 	}
+	// many names with repeats: n distinct names (1..12, every fourth a path) in a sum, with two more
+	// occurrences of any of them inserted at every pair of places - "without duplicates" whatever the
+	// number of distinct names and wherever the repeats stand
+	for n := 1; n <= 12; n++ {
+		base := make([]string, n)
+		for i := range base {
+			base[i] = fmt.Sprintf("g%d", i)
+			if i%4 == 3 {
+				base[i] += ".p"
+			}
+		}
+		for x1 := 0; x1 < n; x1++ {
+			if !w.Take() {
+				continue
+			}
+			for p1 := 0; p1 <= n; p1++ {
+				one := append(append(append([]string{}, base[:p1]...), base[x1]), base[p1:]...)
+				for x2 := 0; x2 < n; x2++ {
+					for p2 := p1 + 1; p2 <= n+1; p2++ {
+						two := append(append(append([]string{}, one[:p2]...), base[x2]), one[p2:]...)
+						src := strings.Join(two, " + ")
+						w.State(1)
+						w.Trans(1)
+						w.Trace(1)
+						w.Note("leg:many-names-with-repeats", 1)
+						w.Sample("many-names-with-repeats", src)
+						c10Fields.Do(w, SrcCase{Src: Bytes(src)})
+					}
+				}
+			}
+		}
+	}
 	// long formulas: a flat chain of N operands is a tree N levels deep; the analysis reports every one of
 	// the N names, however long the chain (so do ladders of conditionals, nested brackets and nested calls)
 	for _, n := range []int{40, 1001, 1200, 3000} {
